@@ -295,6 +295,22 @@ class CFG:
                 if idx:
                     for v in par.values[: idx[0]]:
                         out.append((v, False))
+            # guard clauses: an earlier sibling `if T: ... return / raise / continue / break` (no else)
+            # means `not T` for everything after it in the same block
+            if isinstance(cur, ast.stmt):
+                for fld in ("body", "orelse", "finalbody"):
+                    lst = getattr(par, fld, None)
+                    if isinstance(lst, list) and any(cur is s for s in lst):
+                        idx = [i for i, s in enumerate(lst) if s is cur][0]
+                        for sib in reversed(lst[:idx]):
+                            if isinstance(sib, ast.If):
+                                b_jump = bool(sib.body) and isinstance(sib.body[-1], (ast.Return, ast.Raise, ast.Continue, ast.Break))
+                                o_jump = bool(sib.orelse) and isinstance(sib.orelse[-1], (ast.Return, ast.Raise, ast.Continue, ast.Break))
+                                if b_jump and not sib.orelse:
+                                    out.append((sib.test, False))
+                                elif o_jump and not b_jump:
+                                    out.append((sib.test, True))
+                        break
             if par is self.fn:
                 break
             cur = par
